@@ -20,5 +20,7 @@ def obligations(tier):
     obs += lex_obs("C03", "c_case", ["option_pos", "after_columns", "stmt_start", "col_later"], tier, "tables-intact")
     obs.append(Ob("C03.fresh/accumulators", "c06", "c_fresh", {}, t, ["simple_ddl_parser/dialects/sql.py:p_t_name, p_domain_name/p_expression_domain_as, p_type_name/p_type_definition, p_seq_name"],
                   "two statements never share a mutable accumulator: two calls of each skeleton-building action return dicts without a common list / dict"))
+    obs.append(Ob("C03.order/redefinition", "c04", "c_redefine", {}, t, ["simple_ddl_parser/output/core.py:Output.format, process_alter_and_index_result"],
+                  "ALTER / CREATE INDEX results are merged where they occur: a table defined again later in the script does not receive them"))
     return obs + [Ob("C03.reset/all_flags", "lex", "c_reset", {"VF_CTX": 0}, t, FN,
                "every lexer flag symbolic (7 bools, lp_open/lt_open 0..3, last_token any string <= 10 chars, last_par any string <= 2 chars) x all 117 vocabulary words")]
